@@ -482,7 +482,11 @@ def run_corruption(case: dict[str, Any]) -> Outcome:
         later = [ev["ev"] for ev in run.events[run.hit["events"] :] if ev["ev"] in ("unary", "init", "exchange", "produce")]
         if later:
             out.fail(f"implementation_ran_on_corrupt_request/{tag}/{m['kind']}", f"after fetching corrupted request object {target} the implementation ran {later!r}")
-    if _contains_marker([obs["value"], obs["header"], obs["batches"], obs["logs"]]) or _contains_marker([[e.get("kwargs"), e.get("in_data")] for e in run.events]):
+    if _contains_marker(base["spec"]):
+        # the generated program itself carries the marker value (Hypothesis samples constants found in this module's
+        # source): seeing it downstream proves nothing
+        out.label("generated_case_contains_marker_value")
+    elif _contains_marker([obs["value"], obs["header"], obs["batches"], obs["logs"]]) or _contains_marker([[e.get("kwargs"), e.get("in_data")] for e in run.events]):
         out.fail(f"corrupt_content_delivered/{tag}/{m['kind']}", f"marker content of the corrupted object reached application code: {[obs['value'], obs['header'], obs['batches'], obs['logs']]!r}"[:1500])
     return out
 
@@ -595,6 +599,13 @@ def run_resolver(case: dict[str, Any]) -> Outcome:
             out.label("transient_then_error")
             if got_logs:
                 out.fail("resolver/transient/logs_from_failed_resolution", f"resolution failed ({type(raised).__name__}) yet on_log received {got_logs!r}")
+        return out
+    if reasons and transient is not None and case["sha"] == "absent":
+        # the first download is a *prefix* of the stored object; cut on a message boundary it is itself a well-formed
+        # stream (Arrow makes the end-of-stream marker optional) that may hold exactly one data batch although the stored
+        # object holds several — what was fetched is then not what the stored object's item list says, and without a
+        # checksum nobody can tell.  Not judged (with a checksum the prefix must fail it: judged below as usual).
+        out.label("transient_on_malformed_without_checksum_not_judged")
         return out
     if reasons:
         if raised is None:
